@@ -56,6 +56,12 @@ W3Ops == Call("load", {K("N2","d"), K("N0","b"), K("L0","a")}) \cup {Simple("hot
          \cup {NotifyOp(b) : b \in W3Batches}
          \cup {EditOp(F("a","x"), c) : c \in {CVal(2), CBad, None}} \cup {EditOp(F("b","x"), CVal(5))}
 
+(* W3f: the diamond on a real file system: every edit is notified by the watcher *)
+W3fKeys == W3Keys \cup {K("DL0","")}
+W3fOps == Call("load", {K("N2","d"), K("N0","b"), K("L0","a"), K("DL0","")}) \cup {Simple("hot_reload")}
+          \cup {[op |-> "editn", f |-> F("a","x"), c |-> c] : c \in {CVal(2), CVal(3), CBad, None}}
+          \cup {[op |-> "editn", f |-> F("b","x"), c |-> c] : c \in {CVal(5), None}}
+
 (* W4: re-wiring through an indirection (C05 re-learning; the D8 shape) ----- *)
 W4Keys == {K("L0","a"), K("L0","b"), K("N0","c")}
 W4Files == {F("a","x"), F("b","x"), F("c","y")}
@@ -64,6 +70,10 @@ W4Scripts == (K("N0","c") :> <<IIndirect("c","y","L0",TRUE)>>)
 W4Ops == Call("load", W4Keys) \cup {Simple("hot_reload")}
          \cup {NotifyOp(b) : b \in {{FileE("c","y")}, {FileE("b","x")}, {FileE("a","x")}, {FileE("c","y"), FileE("b","x")}}}
          \cup {EditOp(F("c","y"), CRef("b")), EditOp(F("c","y"), CRef("a")), EditOp(F("b","x"), CVal(2)), EditOp(F("a","x"), CVal(3))}
+
+(* W4r: re-wire, then touch the dependency that was dropped (stale reverse edges) *)
+W4rOps == Call("load", {K("N0","c")}) \cup {Simple("hot_reload"), NotifyOp({FileE("c","y")}), NotifyOp({FileE("a","x")}),
+          EditOp(F("c","y"), CRef("b")), EditOp(F("a","x"), CVal(3))}
 
 (* W4d: the shortest histories that re-wire and edit in one batch (D8) ------- *)
 W4dOps == Call("load", {K("L0","b"), K("N0","c")}) \cup {Simple("hot_reload"), NotifyOp({FileE("c","y"), FileE("b","x")}),
